@@ -636,7 +636,11 @@ class RunCtx:
         else:
             impl = run_lines(harness_bin(hb), cases)
             impl_rel = run_lines(harness_bin(hb, release=True), cases) if release else None
-            model = run_lines(model_bin(prop.MODEL), cases, timeout=3600, wrap_ulimit=True) if (self.model_ok and getattr(prop, 'MODEL', None)) else None
+            model = run_lines(model_bin(prop.MODEL), cases, timeout=3600, wrap_ulimit=True) if (self.model_ok and getattr(prop, 'MODEL', None) and name not in getattr(prop, 'NO_MODEL', ())) else None
+        if name in getattr(prop, 'NO_MODEL', ()):
+            # cases that are too large for the (quadratic, list-based) model: implementation + property oracle only
+            model = None
+            st['model'] = 'not run (oracle only)'
         self.evaluations += len(cases)
         for i, c in enumerate(cases):
             io = impl[i]
